@@ -25,7 +25,7 @@ from ..report import Ctx
 from ..selftest import Mutant
 
 PROP = "C10"
-TECHNIQUE = "static analysis: copy()/constructor wiring tables + alias/mutation scan of dicts shared by copies (incl. parameter-mutating callees) + typed sort-key rule + who-writes/who-appends scans + CFG invalidation-after-write rules + name-space rule (original vs renamed parameter / output names) + guard-fact rule for bound parameters in add_mapspec_axis"
+TECHNIQUE = "static analysis: copy()/constructor wiring tables + alias/mutation scan of dicts shared by copies (incl. parameter-mutating callees) + typed sort-key rule + who-writes/who-appends scans + CFG invalidation-after-write rules + name-space rule (original vs renamed parameter / output names) + guard-fact rule for bound parameters in add_mapspec_axis + one-name-space rule for collected parameter/output names + scope-entry filter tracing + replace-not-merge rule in NestedPipeFunc.copy"
 PFM = "pipefunc._pipefunc"
 BASE = "pipefunc._pipeline._base"
 EXPLANATION = (
@@ -495,6 +495,8 @@ def check(ctx: Ctx) -> None:
 
 PF, B, S, C = "pipefunc/_pipefunc.py", "pipefunc/_pipeline/_base.py", "pipefunc/_pipeline/_simplify.py", "pipefunc/_pipeline/_cache.py"
 MUTANTS = [
+    Mutant("original-params-with-renamed-output", "pipefunc/_pipeline/_base.py", "                else tuple(f.original_parameters) + at_least_tuple(f._output_name),\n", "                else tuple(f.original_parameters) + at_least_tuple(f.output_name),\n", ("C10.9-name-space",), why="round-4 seed C10/10"),
+    Mutant("nested-copy-merges-defaults", "pipefunc/_pipefunc.py", "        f.update_defaults(self._defaults, overwrite=True)\n", "        f.update_defaults(self._defaults)\n", ("C10.1-copy-carries",), why="round-4 seed C10/12"),
     Mutant("nested-copy-original-F18", PF, "        f = NestedPipeFunc(**kwargs)  # type: ignore[arg-type]\n        # `defaults` and `bound` are not constructor arguments, so carry them over explicitly\n        f.update_defaults(self._defaults, overwrite=True)\n        f.update_bound(self._bound, overwrite=True)\n        return f\n",
            "        return NestedPipeFunc(**kwargs)  # type: ignore[arg-type]\n", ("C10.1-copy-carries",), why="original F18"),
     Mutant("copy-drops-bound", PF, "            \"bound\": self._bound,\n            \"profile\": self._profile,", "            \"bound\": None,\n            \"profile\": self._profile,", ("C10.1-copy-carries",)),
